@@ -233,8 +233,10 @@ def mbqm(V, typ, shift):
         xs = ix << left
         V.assume(z3.And(xs >= _c(I32MIN), xs <= _c(I32MAX)))  # TFLite's reference requires x * 2^left_shift to fit int32
         saved = m.saturating_rounding_mul32
+        stub_calls = []
         if V.symbolic:
-            m.saturating_rounding_mul32 = _srm_stub  # leaf proven by kernel/srm32; shared uninterpreted function
+            # leaf proven by kernel/srm32; uninterpreted function shared by implementation and reference
+            m.saturating_rounding_mul32 = lambda a, b: (stub_calls.append(1), _srm_stub(a, b))[1]
         try:
             got = m.multiply_by_quantized_multiplier(x, scale, shift)
         except (OverflowError, AssertionError, TypeError) as e:
@@ -244,7 +246,12 @@ def mbqm(V, typ, shift):
     if not V.symbolic:
         want = _conc_rdbp(_conc_srdhm(int(x) << left, int(scale)), right)
         return [("multiply_by_quantized_multiplier == TFLite reference (operand type %s, shift %d)" % (typ, shift), int(got) == want)]
-    want = ref_rdbp(_srm_ref(xs, isc), right)
+    if stub_calls:
+        want = ref_rdbp(_srm_ref(xs, isc), right)
+    else:
+        # the code under test did not go through the doubling-high-multiply leaf on this path: the abstraction is not shared, so the reference is
+        # evaluated exactly (bit-blasted 17 x 31 bit product; the operand domain of this lemma keeps it small)
+        want = ref_rdbp(ref_srdhm(xs, isc, 32), right)
     return [("multiply_by_quantized_multiplier == TFLite reference (operand type %s, shift %d)" % (typ, shift), _res(got) == want)]
 
 
